@@ -679,7 +679,7 @@ class VAMTransmissionManagement:
                 self.send_next_vam(vam=vam_to_send)
                 return
 
-    def _attach_lf_container_if_due(self, vam: VAMMessage) -> None:
+    def _attach_lf_container_if_due(self, vam: VAMMessage) -> float | None:
         """Attach ``vruLowFrequencyContainer`` to *vam* when required.
 
         The Low-Frequency Container shall be included (clause 6.2):
@@ -695,6 +695,13 @@ class VAMTransmissionManagement:
         ----------
         vam:
             The :class:`VAMMessage` that is about to be transmitted.
+
+        Returns
+        -------
+        float | None
+            The inclusion time (seconds since epoch) when the container was attached, else
+            ``None``.  The caller records it as ``last_lf_vam_time`` once the VAM has
+            actually been handed to BTP.
         """
         import time as _time_module
         now = _time_module.time()
@@ -715,7 +722,8 @@ class VAMTransmissionManagement:
             vam.vam["vam"]["vamParameters"]["vruLowFrequencyContainer"] = {
                 "profileAndSubprofile": ("pedestrian", "unavailable")
             }
-            self.last_lf_vam_time = now
+            return now
+        return None
 
     def send_next_vam(self, vam: VAMMessage) -> None:
         """Encode and send *vam* via the BTP router.
@@ -744,7 +752,7 @@ class VAMTransmissionManagement:
 
         # Attach LF container when due (must be done *after* cluster-op is
         # present so has_cluster_op detection inside the helper works).
-        self._attach_lf_container_if_due(vam)
+        lf_included_at = self._attach_lf_container_if_due(vam)
 
         if self.vru_basic_service_ldm is not None:
             vam_ldm = vam.vam.copy()
@@ -790,3 +798,6 @@ class VAMTransmissionManagement:
                 ]["heading"]["value"] / 10.0
             )
             self.is_first_vam = False
+            if lf_included_at is not None:
+                # Only a VAM that was really transmitted restarts T_GenVamLFMin.
+                self.last_lf_vam_time = lf_included_at
